@@ -311,6 +311,13 @@ LEVELS = [{"K": 0, "T": 0}, {"K": 1, "T": 0}, {"K": 1, "T": 1}, {"K": 2, "T": 1}
 OUTCOMES = ("return", "raise", "return-falsy", "raise-falsy", "return-exception")
 
 
+def pool_depth(tier, p, outcome, cb):
+    """The whole-pool program is the largest harness (10^4 executions at K=1,T=1): in the quick tier only two variants go that deep."""
+    if tier == "quick" and p == "pool" and not (cb in ("record", "raise") and outcome in ("return", "raise")):
+        return (1,)
+    return ()
+
+
 def harnesses(tier):
     out = []
     progs_conc = ["reg||exec", "reg||reg||exec", "obs||exec", "obs||reg||exec"]
@@ -322,14 +329,14 @@ def harnesses(tier):
             for p in progs_seq + progs_conc:
                 if p == "obs||exec" and cb != "record":
                     continue
-                out.append((("checks.c16", "make", (p, outcome, cb)), "%s/%s/%s" % (p, outcome, cb)))
+                out.append((("checks.c16", "make", (p, outcome, cb)), "%s/%s/%s" % (p, outcome, cb)) + pool_depth(tier, p, outcome, cb))
     # callbacks of less common kinds: raising an exception that has no text form, falsy callable objects, callbacks that register a follow-up
     for cb in ("badstr", "falsy", "reenter"):
         for outcome in ("return", "raise"):
             for p in (progs_seq + progs_conc if tier == "thorough" else ["reg;exec", "exec;reg", "exec;reg;reg", "pool", "reg||exec"]):
                 if p == "obs||exec":
                     continue
-                out.append((("checks.c16", "make", (p, outcome, cb)), "%s/%s/%s" % (p, outcome, cb)))
+                out.append((("checks.c16", "make", (p, outcome, cb)), "%s/%s/%s" % (p, outcome, cb)) + pool_depth(tier, p, outcome, cb))
     if tier == "thorough":
         for outcome in ("return", "raise"):
             for p in ("reg||exec", "obs||exec"):
